@@ -21,7 +21,8 @@ CLAUSES = {
           "outstanding packet having arrived",
     "62": "C06: an acknowledgement that does not answer the oldest outstanding send did not end the connection",
     "63": "C06: two outstanding packets carry the same packet id, or id 0",
-    "64": "C06: the peer acknowledged correctly and in order but the connection was closed",
+    "64": "C06/C14: the peer acknowledged correctly and in order (a PUBREC moves its exchange behind everything sent "
+          "before the PUBCOMP is due) but the connection was closed",
     "65": "C06: a mismatching acknowledgement completed a send successfully",
     "66": "C06: a send was refused with PacketIdInUse although no outstanding packet carries that id",
     "71": "C07: the connection has ended and every task was polled again, but a send / readiness future is still "
@@ -183,8 +184,8 @@ def track(ver, case, obs, want):
             # view) must carry the explicit id -- now, or when the future was created (op 16)
             if not any(e[0] == start_id[t] for e in out) and start_id[t] not in out_at_create.get(t, ()):
                 return "0,66,%d" % i
-        if 6 in want:
-            if closed_expected and is_open and code not in ():
+        if 6 in want or 14 in want:
+            if 6 in want and closed_expected and is_open and code not in ():
                 # the connection must be closed once the mismatching ack has been processed
                 if mismatch_here:
                     return "0,62,%d" % i
